@@ -407,7 +407,10 @@ def eval_frame_update(f, snap, fm, iface, route, rk, ck, vspec=None, blame=True)
     elif exc is not None:
         if 'repeats' in flags:
             return outcome(True, nontrivial=False, how='repeat-rejected'), None
-        if iface == 'drop' and ck is not None and len(set(C)) == nc and (len(set(R)) != nr or nr == 0 or True):
+        if iface == 'assign' and vspec[0] == 'frame' and 'foreign' in (vspec[1], vspec[2]):
+            # a Frame value sharing no label with the target on one axis: Frame.reindex (TypeBlocks.resize_blocks) fails when the other axis is reordered
+            res = outcome(False, f'{PID}:Frame.assign:value=frame-disjoint-labels:raises-{type(exc).__name__}', f'assign of a Frame value without common labels on one axis raised {type(exc).__name__}: {exc!s:.140}')
+        elif iface == 'drop' and ck is not None and len(set(C)) == nc:
             res = outcome(False, f'{PID}:Frame.drop:all-columns-dropped-with-row-key-raises-{type(exc).__name__}', f'drop of every column together with a row key raised {type(exc).__name__}: {exc!s:.140}')
         else:
             res = outcome(False, f'{area}:raises-{type(exc).__name__}:{kcls}' + (f':value={vtxt}' if vtxt else ''), f'{iface} raised {type(exc).__name__}: {exc!s:.140}')
@@ -560,7 +563,10 @@ def eval_frame_bloc(f, snap, fm, kspec, vspec):
     op = (lambda: node.apply(value)) if t == 'apply' else (lambda: node(value, **kw))
     r, exc, mutated = run_op(op, f, snap)
     area = f'{PID}:Frame.assign.bloc'
-    kcls = f'key={kspec[0]}:value={t}' + (f'-{vspec[1]}' if t == 'apply' else '')
+    ktxt = kspec[0]
+    if ktxt == 'frame' and (all(S._is_absent(c_) for c_ in kspec[2]) or all(S._is_absent(r_) for r_ in kspec[1])):
+        ktxt = 'frame-disjoint-labels'
+    kcls = f'key={ktxt}' + ('' if ktxt == 'frame-disjoint-labels' else f':value={t}' + (f'-{vspec[1]}' if t == 'apply' else ''))
     if mutated:
         return outcome(False, f'{area}:original-mutated', 'snapshot of the original Frame changed by assign.bloc')
     if exc is not None:
@@ -572,6 +578,9 @@ def eval_frame_bloc(f, snap, fm, kspec, vspec):
     receives = {j for (_, j) in cmap} if t != 'apply' or vspec[1] == 'neg' else {j for (_, j) in want}
     data = [[cmap.get((i, j), fm.data[j][i]) for i in range(nr)] for j in range(nc)]
     sym = cmp_frame(o, fm.rax.norm, fm.cax.norm, data, [None if j in receives else dts[j] for j in range(nc)], fm.name, exact_cols=set(range(nc)) - receives)
+    if sym == 'unaddressed-column-dtype-changed':
+        # one root cause whatever key / value: the whole 2-D block that holds an addressed cell is cast
+        return outcome(False, f'{area}:{sym}', f'assign.bloc changed the dtype of a column that received no value; cells={want} dtypes {o["dtypes"]} vs {dts}')
     if sym is not None:
         return outcome(False, f'{area}:{sym}:{kcls}', f'assign.bloc result differs from the model ({sym}); cells={want} observed {str(o)[:300]}')
     return outcome(True, nontrivial=bool(want))
@@ -713,10 +722,10 @@ def update_positional(n, tier, full_slices=True):
     """ints, slices, int lists / arrays (negative members, unordered, a repeat), Boolean arrays -- all in range"""
     for p in range(-n, n):
         yield ('int', p)
-    if full_slices:
-        yield from all_slices(n, None if (tier != 'quick' or n <= 3) else None)
+    if tier == 'quick' and n >= 4:
+        yield from quick_slices(n)
     else:
-        yield from all_slices(n, 2 if n > 2 else None)
+        yield from all_slices(n)
     for i, lst in enumerate(int_lists(n)):
         if any(not (-n <= p < n) for p in lst):
             continue
@@ -886,7 +895,7 @@ def _run_assign(repo, task, group):
                       '; every value shape for non-slice keys, two rotating value shapes per slice key. Non-trivial: >= 1 cell addressed',
                  bound=f'columns <= 4, rows <= 4, dtypes int64/float64(NaN)/bool/<U2/object, tier={tier}')
     cases = _assign_frame_cases(tier, group)
-    cases += [('series', kind, n) for kind in 'ifbUO' for n in (0, 1, 2, 3, 4)]
+    cases += [('series', kind, n) for kind in ('ifbUO' if (group == 'unlabelled' or tier != 'quick') else 'ifO') for n in (0, 1, 2, 3, 4)]
     if group == 'labelled':
         cases += _bloc_assign_cases(tier) + _label_assign_cases(tier)
     for case in rep.shard(cases):
@@ -916,10 +925,10 @@ def _run_assign(repo, task, group):
                     is_slice = var is not None and var[0] == 'slice'
                     cnt += 1
                     if is_slice and len(vs) > 1:
-                        vs = S._dedupe([vs[cnt % len(vs)], vs[(cnt * 7 + 3) % len(vs)]] if part == 'cols' else [vs[cnt % len(vs)]])
+                        vs = S._dedupe([vs[cnt % len(vs)], vs[(cnt * 7 + 3) % len(vs)]] if (part == 'cols' and group == 'unlabelled') else [vs[cnt % len(vs)]])
                     elif tier == 'quick' and var is not None and var[0] in ('ilist', 'iarr') and len(vs) > 5:
                         # every value shape over the enumeration as a whole: two fixed shapes + three rotating ones per key
-                        vs = S._dedupe([vs[0], vs[4]] + [vs[(cnt + d) % len(vs)] for d in (0, 3, 6)])
+                        vs = S._dedupe(([vs[0], vs[4]] if group == 'unlabelled' else [vs[0]]) + [vs[(cnt + d) % len(vs)] for d in ((0, 3, 6) if group == 'unlabelled' else (1, 4))])
                     for v in vs:
                         rp = dict(fn='assign', c='frame', kinds=kinds, rows=rows, layout=lay, rax='str', cax='str', iface='assign', route='iloc', rk=rk, ck=ck, v=v)
                         _record(rep, eval_frame_update(f, snap, fm, 'assign', 'iloc', rk, ck, v), rp, ('f', kinds, rows, repr(lay), repr(rk), repr(ck), repr(v)))
@@ -928,8 +937,8 @@ def _run_assign(repo, task, group):
                 fm = FrameModel(kinds, rows, lay, axes[0], axes[1])
                 f = fm.build()
                 snap = Orig(f)
-                for ks in S.bloc_keys(fm, 'quick' if tier == 'quick' else 'quick'):
-                    for v in BLOC_VALUES:
+                for kc, ks in enumerate(S.bloc_keys(fm, 'quick')):
+                    for v in (BLOC_VALUES if tier != 'quick' else [BLOC_VALUES[(kc + d) % len(BLOC_VALUES)] for d in (0, 3, 6, 9)]):
                         rp = dict(fn='bloc', kinds=kinds, rows=rows, layout=lay, rax=axes[0], cax=axes[1], k=ks, v=v)
                         _record(rep, eval_frame_bloc(f, snap, fm, ks, v), rp, ('b', kinds, rows, repr(lay), axes, repr(ks), repr(v)))
             elif case[0] == 'label':
@@ -1048,7 +1057,7 @@ def run_drop_mask(repo, task):
     tier = task.get('tier', 'quick')
     rep = Report('C08-drop-mask', task,
                  rule='Frame / Series .drop, .mask, .masked_array: every dtype-safe block layout x (every column key x representative row keys) + (every row key x representative '
-                      'column keys) + one-axis keys on the iloc form (all in-range ints, all slices with start/stop/step in [-n-1,n+1] U {None}, int lists/arrays of distinct positions in '
+                      'column keys) + one-axis keys on the iloc form (all in-range ints, all slices with start/stop/step in [-n-1,n+1] U {None} (quick, n=4: every clamping class of start/stop x 6 steps), int lists/arrays of distinct positions in '
                       'every order and sign + a repeat, all Boolean arrays); loc / getitem forms (labels, label lists, label slices, Boolean array / Series, ILoc) on str / int / '
                       'auto-integer / IndexDate / IndexHierarchy axes. Non-trivial: >= 1 cell addressed',
                  bound=f'columns <= 4, rows <= 4, tier={tier}')
@@ -1069,8 +1078,8 @@ def run_drop_mask(repo, task):
                     for iface in ('drop', 'mask', 'masked_array'):
                         if iface != 'drop' and (rk == ('ilist', []) or ck == ('ilist', [])) and part == ('cols' if rk == ('ilist', []) else 'rows'):
                             continue
-                        if iface == 'masked_array' and ((ck is not None and ck[0] == 'slice') or rk[0] == 'slice') and tier == 'quick':
-                            continue
+                        if iface == 'masked_array' and tier == 'quick' and (part == 'rows' or (ck is not None and ck[0] == 'slice')):
+                            continue      # masked_array shares extract_iloc_mask with mask: quick tier checks it on the non-slice column keys
                         rp = dict(fn='update', c='frame', kinds=kinds, rows=rows, layout=lay, rax='str', cax='str', iface=iface, route='iloc', rk=rk, ck=ck, v=None)
                         _record(rep, eval_frame_update(f, snap, fm, iface, 'iloc', rk, ck), rp, ('f', iface, kinds, rows, repr(lay), repr(rk), repr(ck)))
             elif case[0] == 'series':
@@ -1105,3 +1114,495 @@ def run_drop_mask(repo, task):
         except Exception:
             rep.error(f'run_drop_mask case {case}')
     return rep.done()
+
+
+# ---------------------------------------------------------------------------------------------
+# run_other: astype, relabel, rename, insert_before / insert_after
+
+ASTYPES = ('float64', 'object', 'str')
+
+
+def _astype_ok(kind, dt):
+    if dt == 'float64':
+        return kind in 'ibf'
+    return True
+
+
+def _expected_astype(fm, j, dt):
+    a = col_array(fm.kinds[j], j, fm.nrows).astype(str if dt == 'str' else np.dtype(dt))
+    return arr_cells(a), str(a.dtype)
+
+
+def eval_astype(f, orig, fm, form, ck, dt):
+    """form: 'getitem' (f.astype[ck](dt)), 'call' (f.astype(dt)), 'mapping' (f.astype({label: dt})); ck label spec"""
+    import static_frame as sf
+    nc = len(fm.kinds)
+    if form == 'call':
+        C = list(range(nc))
+    else:
+        m = model_label(ck, fm.cax)
+        if m[0] in ('raise', 'skip'):
+            return outcome(True, nontrivial=False, how='skip')
+        C, _ = positions(m)
+        if m[0] == 'multi' and 'repeats' in m[2]:
+            return outcome(True, nontrivial=False, how='skip')
+    if not all(_astype_ok(fm.kinds[j], dt) for j in C):
+        return outcome(True, nontrivial=False, how='skip')
+    tdt = str if dt == 'str' else np.dtype(dt)
+    if form == 'getitem':
+        key = build_label(ck, fm.cax)
+        op = lambda: f.astype[key](tdt)
+    elif form == 'call':
+        op = lambda: f.astype(tdt)
+    else:
+        if m[0] != 'scalar' and ck[0] != 'lablist':
+            return outcome(True, nontrivial=False, how='skip')
+        mp = {fm.cax.raw[j]: tdt for j in C}
+        op = lambda: f.astype(mp)
+    r, exc, mutated = run_op(op, f, orig)
+    area = f'{PID}:Frame.astype.{form}'
+    kcls = f'cols={key_class(ck) if form != "call" else "all"}:to={dt}'
+    if mutated:
+        return outcome(False, f'{area}:original-mutated', 'snapshot of the original Frame changed by astype')
+    if exc is not None:
+        return outcome(False, f'{area}:raises-{type(exc).__name__}:cols={key_class(ck) if form != "call" else "all"}', f'astype raised {type(exc).__name__}: {exc!s:.140}')
+    if not isinstance(r, sf.Frame) or r is f:
+        return outcome(False, f'{area}:not-a-new-Frame', f'astype returned {type(r).__name__}')
+    o = obs_frame(r)
+    data, want = [], []
+    base = model_dtypes(fm)
+    for j in range(nc):
+        if j in C:
+            cells, d = _expected_astype(fm, j, dt)
+            data.append(cells)
+            want.append(d)
+        else:
+            data.append(fm.data[j])
+            want.append(base[j])
+    sym = cmp_frame(o, fm.rax.norm, fm.cax.norm, data, want, fm.name, exact_cols=set(range(nc)) - set(C))
+    if sym is not None and form == 'mapping':
+        # the mapping form does not depend on the key kind: one key per target dtype
+        return outcome(False, f'{area}:wrong-columns-converted:to={dt}', f'astype(mapping) converted the wrong columns ({sym}); C={C} observed dtypes {o["dtypes"]} expected {want}')
+    if sym is not None:
+        return outcome(False, f'{area}:{sym}:{kcls}', f'astype result differs from the model ({sym}); C={C} observed {str(o)[:300]} expected dtypes {want}')
+    return outcome(True, nontrivial=bool(C))
+
+
+RELABELS = ('map-partial', 'map-full', 'func', 'list', 'auto')
+
+
+def _relabel_arg(how, ax):
+    """-> (argument, expected normalised labels)"""
+    import static_frame as sf
+    raw = ax.raw
+    n = len(raw)
+    if how == 'map-partial':
+        mp = {raw[i]: ('N', i) for i in range(0, n, 2)}
+        mp['not-a-label'] = 'unused'
+        return mp, [nl(mp.get(x, x)) if not isinstance(x, tuple) or x not in mp else nl(mp[x]) for x in raw]
+    if how == 'map-full':
+        mp = {raw[i]: (('L', n - i) if ax.kind == 'ih' else f'L{n - i}') for i in range(n)}
+        return mp, [nl(mp[x]) for x in raw]
+    if how == 'func':
+        fn = (lambda x: (x, 'k'))
+        return fn, [nl(fn(x)) for x in raw]
+    if how == 'list':
+        new = [f'n{i}' for i in range(n)][::-1]
+        return new, [nl(x) for x in new]
+    if how == 'auto':
+        return sf.IndexAutoFactory, [nl(i) for i in range(n)]
+    raise ValueError(how)
+
+
+def eval_relabel(c, orig, model, how_r, how_c):
+    """Frame.relabel(index=, columns=) / Series.relabel(index)"""
+    import static_frame as sf
+    is_frame = isinstance(c, sf.Frame)
+    rax = model.rax if is_frame else model.ax
+    if rax.kind == 'ih' and how_r in ('map-partial', 'func', 'list'):
+        return outcome(True, nontrivial=False, how='skip')
+    kw, exp_r, exp_c = {}, rax.norm, (model.cax.norm if is_frame else None)
+    if how_r is not None:
+        arg, exp_r = _relabel_arg(how_r, rax)
+        kw['index'] = arg
+    if is_frame and how_c is not None:
+        if model.cax.kind == 'ih':
+            return outcome(True, nontrivial=False, how='skip')
+        arg, exp_c = _relabel_arg(how_c, model.cax)
+        kw['columns'] = arg
+    if not kw or (not rax.n and how_r in ('map-partial',)):
+        return outcome(True, nontrivial=False, how='skip')
+    op = (lambda: c.relabel(**kw)) if is_frame else (lambda: c.relabel(kw['index']))
+    r, exc, mutated = run_op(op, c, orig)
+    cont = 'Frame' if is_frame else 'Series'
+    area = f'{PID}:{cont}.relabel'
+    kcls = f'index={how_r},columns={how_c}'
+    if mutated:
+        return outcome(False, f'{area}:original-mutated', 'snapshot of the original changed by relabel')
+    if exc is not None:
+        return outcome(False, f'{area}:raises-{type(exc).__name__}:{kcls}', f'relabel raised {type(exc).__name__}: {exc!s:.140}')
+    if type(r) is not type(c) or r is c:
+        return outcome(False, f'{area}:not-a-new-container', f'relabel returned {type(r).__name__}')
+    if is_frame:
+        o = obs_frame(r)
+        sym = cmp_frame(o, exp_r, exp_c, model.data, model_dtypes(model), model.name, exact_cols=set(range(len(model.kinds))))
+    else:
+        o = obs_series(r)
+        sym = None
+        if o['rows'] != exp_r:
+            sym = 'wrong-labels'
+        elif len(o['data']) != model.n or not all(cell_eq(a, b) for a, b in zip(o['data'], model.data)):
+            sym = 'values-changed'
+        elif o['dtype'] != str(np.dtype(DT[model.kind])):
+            sym = 'dtype-changed'
+        elif o['name'] != model.name:
+            sym = 'name-changed'
+    if sym is not None:
+        return outcome(False, f'{area}:{sym}:{kcls}', f'relabel result differs from the model ({sym}): observed {str(o)[:300]} expected rows {exp_r} cols {exp_c}')
+    return outcome(True)
+
+
+def eval_rename(c, orig, model, name_kw):
+    """rename(name) / rename(index=..) / rename(columns=..): only names change"""
+    import static_frame as sf
+    is_frame = isinstance(c, sf.Frame)
+    kw = {k: v for k, v in name_kw.items()}
+    if not is_frame and 'columns' in kw:
+        return outcome(True, nontrivial=False, how='skip')
+    args = (kw.pop('name'),) if 'name' in kw else ()
+    op = lambda: c.rename(*args, **kw)
+    r, exc, mutated = run_op(op, c, orig)
+    cont = 'Frame' if is_frame else 'Series'
+    area = f'{PID}:{cont}.rename'
+    kcls = ','.join(sorted(name_kw))
+    if mutated:
+        return outcome(False, f'{area}:original-mutated', 'snapshot of the original changed by rename')
+    if exc is not None:
+        return outcome(False, f'{area}:raises-{type(exc).__name__}:{kcls}', f'rename raised {type(exc).__name__}: {exc!s:.140}')
+    if type(r) is not type(c) or r is c:
+        return outcome(False, f'{area}:not-a-new-container', f'rename returned {type(r).__name__}')
+    want_name = name_kw.get('name', model.name)
+    sym = None
+    if r.name != want_name:
+        sym = 'wrong-name'
+    elif r.index.name != name_kw.get('index', c.index.name):
+        sym = 'wrong-index-name'
+    elif is_frame and r.columns.name != name_kw.get('columns', c.columns.name):
+        sym = 'wrong-columns-name'
+    elif is_frame:
+        sym = cmp_frame(obs_frame(r), model.rax.norm, model.cax.norm, model.data, model_dtypes(model), ..., exact_cols=set(range(len(model.kinds))))
+    else:
+        o = obs_series(r)
+        if o['rows'] != model.ax.norm or not all(cell_eq(a, b) for a, b in zip(o['data'], model.data)) or o['dtype'] != str(np.dtype(DT[model.kind])):
+            sym = 'content-changed'
+    if sym is not None:
+        return outcome(False, f'{area}:{sym}:{kcls}', f'rename({name_kw}) differs from the model ({sym})')
+    return outcome(True)
+
+
+def eval_insert(f, orig, fm, where, kspec, cspec):
+    """Frame.insert_before / insert_after(key, container).  kspec: ('lab', j) | ('iloc', ('int', p));
+    cspec: ('series', order variant, dtype kind, fill) | ('frame', order variant, dtype kind, fill, ncols)"""
+    import static_frame as sf
+    nr, nc = fm.nrows, len(fm.kinds)
+    if fm.rax.kind not in X_LABEL or fm.cax.kind not in ('str',):
+        return outcome(True, nontrivial=False, how='skip')
+    m = model_label(kspec, fm.cax)
+    if m[0] != 'scalar':
+        return outcome(True, nontrivial=False, how='skip')
+    p = m[1]
+    pos = p if where == 'before' else p + 1
+    order = _orders(list(range(nr)), cspec[1], None)
+    dk, fill = cspec[2], cspec[3]
+    ncol_new = 1 if cspec[0] == 'series' else cspec[4]
+    if not order:
+        return outcome(True, nontrivial=False, how='skip')
+    flat = _arr_vals(dk, len(order) * ncol_new, 800)
+    new_labels = ['NEW0', 'NEW1', 'NEW2'][:ncol_new]
+    if cspec[0] == 'series':
+        cont = sf.Series(_mk_array(flat, dk), index=_index_for(order, fm.rax), name=new_labels[0])
+    else:
+        cont = sf.Frame(_mk_array(flat, dk, (len(order), ncol_new)), index=_index_for(order, fm.rax), columns=new_labels)
+    kw = {} if fill is None else dict(fill_value=fill)
+    fv = NAN if fill is None else fill
+    key = build_label(kspec, fm.cax)
+    meth = f.insert_before if where == 'before' else f.insert_after
+    op = lambda: meth(key, cont, **kw)
+    r, exc, mutated = run_op(op, f, orig)
+    area = f'{PID}:Frame.insert_{where}'
+    kcls = f'key={key_class(kspec)}:container={cspec[0]}-{cspec[1]}'
+    if mutated:
+        return outcome(False, f'{area}:original-mutated', 'snapshot of the original changed by insert')
+    if exc is not None:
+        return outcome(False, f'{area}:raises-{type(exc).__name__}:{kcls}', f'insert_{where} raised {type(exc).__name__}: {exc!s:.140}')
+    if not isinstance(r, sf.Frame) or r is f:
+        return outcome(False, f'{area}:not-a-new-Frame', f'insert returned {type(r).__name__}')
+    new_cols = []
+    for b in range(ncol_new):
+        vals = {q: flat[a * ncol_new + b] for a, q in enumerate(order) if q != 'X'}
+        new_cols.append([vals.get(i, fv) for i in range(nr)])
+    labels = fm.cax.norm[:pos] + [nl(x) for x in new_labels] + fm.cax.norm[pos:]
+    data = fm.data[:pos] + new_cols + fm.data[pos:]
+    base = model_dtypes(fm)
+    want = base[:pos] + [None] * ncol_new + base[pos:]
+    exact = set(range(pos)) | set(range(pos + ncol_new, nc + ncol_new))
+    o = obs_frame(r)
+    sym = cmp_frame(o, fm.rax.norm, labels, data, want, fm.name, exact_cols=exact)
+    if sym is not None:
+        neg = kspec[0] == 'iloc' and kspec[1][1] < 0
+        return outcome(False, f'{area}:{sym}:key={key_class(kspec)}' + ('-negative' if neg else ''),
+                       f'insert_{where} differs from the model ({sym}); expected columns {labels} observed {str(o)[:300]}')
+    return outcome(True)
+
+
+def eval_series_insert(s, orig, sm, where, kspec, variant):
+    import static_frame as sf
+    n = sm.n
+    if sm.ax.kind != 'str':
+        return outcome(True, nontrivial=False, how='skip')
+    m = model_label(kspec, sm.ax)
+    if m[0] != 'scalar':
+        return outcome(True, nontrivial=False, how='skip')
+    pos = m[1] if where == 'before' else m[1] + 1
+    k = {'one': 1, 'two': 2}[variant]
+    new_labels = ['NEW0', 'NEW1'][:k]
+    vals = _arr_vals('i' if sm.kind in 'if' else 'O', k, 800)
+    cont = sf.Series(_mk_array(vals, 'i' if sm.kind in 'if' else 'O'), index=new_labels)
+    key = build_label(kspec, sm.ax)
+    meth = s.insert_before if where == 'before' else s.insert_after
+    r, exc, mutated = run_op(lambda: meth(key, cont), s, orig)
+    area = f'{PID}:Series.insert_{where}'
+    neg = kspec[0] == 'iloc' and kspec[1][1] < 0
+    kcls = f'key={key_class(kspec)}' + ('-negative' if neg else '')
+    if mutated:
+        return outcome(False, f'{area}:original-mutated', 'snapshot of the original changed by insert')
+    if exc is not None:
+        return outcome(False, f'{area}:raises-{type(exc).__name__}:{kcls}', f'insert raised {type(exc).__name__}: {exc!s:.140}')
+    if not isinstance(r, sf.Series) or r is s:
+        return outcome(False, f'{area}:not-a-new-Series', f'insert returned {type(r).__name__}')
+    o = obs_series(r)
+    labels = sm.ax.norm[:pos] + [nl(x) for x in new_labels] + sm.ax.norm[pos:]
+    data = sm.data[:pos] + vals + sm.data[pos:]
+    sym = None
+    if o['rows'] != labels:
+        sym = 'wrong-labels'
+    elif len(o['data']) != len(data) or not all(cell_eq(a, b) for a, b in zip(o['data'], data)):
+        sym = 'wrong-cells'
+    elif o['name'] != sm.name:
+        sym = 'name-changed'
+    if sym is not None:
+        return outcome(False, f'{area}:{sym}:{kcls}', f'insert_{where} differs from the model ({sym}); expected labels {labels} observed {str(o)[:300]}')
+    return outcome(True)
+
+
+def _astype_keys(ax):
+    n = ax.n
+    for j in range(n):
+        yield ('lab', j)
+    for seq in S.distinct_sequences(n):
+        if seq:
+            yield ('lablist', list(seq))
+    for a in [None] + list(range(n)):
+        for b in [None] + list(range(n)):
+            yield ('labslice', a, b, None)
+    for bits in itertools.product((False, True), repeat=n):
+        yield ('bool', list(bits))
+    yield ('iloc', ('slice', None, None, -1))
+    yield ('iloc', ('int', -1))
+    if n > 1:
+        yield ('iloc', ('ilist', [-1, 0]))
+
+
+INSERT_CONTAINERS = [('series', 'same', 'i', None), ('series', 'rev', 'U', None), ('series', 'partial', 'i', None), ('series', 'partial+foreign', 'f', -5), ('series', 'rot', 'O', None),
+                     ('series', 'foreign', 'i', 0),
+                     ('frame', 'same', 'i', None, 2), ('frame', 'rev', 'f', None, 2), ('frame', 'partial+foreign', 'U', 'F', 3), ('frame', 'rot', 'i', None, 1), ('frame', 'partial', 'i', None, 2)]
+RENAMES = [dict(name='new'), dict(name=None), dict(name=('t', 1)), dict(index='IX'), dict(columns='CX'), dict(name='n2', index='IX', columns='CX'), dict(name=0)]
+
+
+def _other_cases(tier):
+    out = []
+    mixes = ['i', 'if', 'bO', 'iii', 'ifU', 'iiii', 'iiff', 'ifUO', 'iibb'] if tier == 'quick' else MIXES['thorough'] + ['iibb']
+    for kinds in mixes:
+        for rows in ((3,) if tier == 'quick' else (0, 1, 2, 3, 4)):
+            cols = [col_array(k, j, rows) for j, k in enumerate(kinds)]
+            for lay in layouts_dtype_safe(cols):
+                for cax in ('str', 'int') if len(kinds) >= 3 else ('str', 'auto'):
+                    out.append(('astype', kinds, rows, [list(x) for x in lay], cax))
+                out.append(('insert', kinds, rows, [list(x) for x in lay]))
+                out.append(('relabel', kinds, rows, [list(x) for x in lay]))
+    for kind in 'ifbUO':
+        for n in (0, 1, 3, 4):
+            out.append(('series', kind, n))
+    return out
+
+
+def run_other(repo, task):
+    tier = task.get('tier', 'quick')
+    rep = Report('C08-other', task,
+                 rule='Frame.astype[k](dtype) for every column label / ordered label list / label slice / Boolean array / ILoc key, Frame.astype(dtype), Frame.astype({label: dtype}) with '
+                      'dtype in float64 / object / str; Frame / Series relabel (partial and full mapping, function, list, IndexAutoFactory; index and/or columns), rename (name, index=, columns=), '
+                      'Frame.insert_before / insert_after at every column label and ILoc position (also negative) with Series / Frame containers whose index is identical / reversed / rotated / '
+                      'partial / partly or wholly foreign (default and explicit fill_value), Series.insert_before / insert_after, Series.astype; every dtype-safe block layout. '
+                      'Checked: only the addressed dtypes / labels / names / inserted columns differ from the original; unaddressed columns keep values and exact dtype; original snapshot unchanged',
+                 bound=f'columns <= 4, rows <= 4, tier={tier}')
+    for case in rep.shard(_other_cases(tier)):
+        try:
+            if case[0] == 'astype':
+                _, kinds, rows, lay, cax = case
+                fm = FrameModel(kinds, rows, lay, 'str', cax)
+                f = fm.build()
+                snap = Orig(f)
+                for dt in ASTYPES:
+                    rp = dict(fn='astype', kinds=kinds, rows=rows, layout=lay, cax=cax, form='call', ck=None, dt=dt)
+                    _record(rep, eval_astype(f, snap, fm, 'call', None, dt), rp, ('a', kinds, rows, repr(lay), cax, 'call', dt))
+                    for ck in _astype_keys(fm.cax):
+                        for form in ('getitem', 'mapping'):
+                            rp = dict(fn='astype', kinds=kinds, rows=rows, layout=lay, cax=cax, form=form, ck=ck, dt=dt)
+                            _record(rep, eval_astype(f, snap, fm, form, ck, dt), rp, ('a', kinds, rows, repr(lay), cax, form, repr(ck), dt))
+            elif case[0] == 'insert':
+                _, kinds, rows, lay = case
+                fm = FrameModel(kinds, rows, lay)
+                f = fm.build()
+                snap = Orig(f)
+                nc = len(kinds)
+                keys = [('lab', j) for j in range(nc)] + [('iloc', ('int', p)) for p in range(-nc, nc)]
+                for where in ('before', 'after'):
+                    for ks in keys:
+                        for cs in INSERT_CONTAINERS:
+                            rp = dict(fn='insert', kinds=kinds, rows=rows, layout=lay, where=where, k=ks, cont=cs)
+                            _record(rep, eval_insert(f, snap, fm, where, ks, cs), rp, ('i', kinds, rows, repr(lay), where, repr(ks), repr(cs)))
+            elif case[0] == 'relabel':
+                _, kinds, rows, lay = case
+                for rax, cax in (('str', 'str'), ('int', 'auto'), ('auto', 'int'), ('ih', 'str')):
+                    fm = FrameModel(kinds, rows, lay, rax, cax)
+                    f = fm.build()
+                    snap = Orig(f)
+                    for hr in (None,) + RELABELS:
+                        for hc in (None,) + RELABELS:
+                            rp = dict(fn='relabel', c='frame', kinds=kinds, rows=rows, layout=lay, rax=rax, cax=cax, hr=hr, hc=hc)
+                            _record(rep, eval_relabel(f, snap, fm, hr, hc), rp, ('r', kinds, rows, repr(lay), rax, cax, hr, hc))
+                    for nk in RENAMES:
+                        rp = dict(fn='rename', c='frame', kinds=kinds, rows=rows, layout=lay, rax=rax, cax=cax, names=nk)
+                        _record(rep, eval_rename(f, snap, fm, nk), rp, ('n', kinds, rows, repr(lay), rax, cax, repr(nk)))
+                    _final(rep, snap, case)
+            elif case[0] == 'series':
+                _, kind, n = case
+                for axk in ('str', 'int', 'auto', 'ih'):
+                    if axk == 'ih' and n == 0:
+                        continue
+                    sm = SeriesModel(kind, n, axk)
+                    s = sm.build()
+                    snap = Orig(s)
+                    for hr in RELABELS:
+                        rp = dict(fn='relabel', c='series', kind=kind, n=n, ax=axk, hr=hr, hc=None)
+                        _record(rep, eval_relabel(s, snap, sm, hr, None), rp, ('sr', kind, n, axk, hr))
+                    for nk in RENAMES:
+                        rp = dict(fn='rename', c='series', kind=kind, n=n, ax=axk, names=nk)
+                        _record(rep, eval_rename(s, snap, sm, nk), rp, ('sn', kind, n, axk, repr(nk)))
+                    for where in ('before', 'after'):
+                        for ks in [('lab', j) for j in range(n)] + [('iloc', ('int', p)) for p in range(-n, n)]:
+                            for variant in ('one', 'two'):
+                                rp = dict(fn='sinsert', kind=kind, n=n, ax=axk, where=where, k=ks, variant=variant)
+                                _record(rep, eval_series_insert(s, snap, sm, where, ks, variant), rp, ('si', kind, n, axk, where, repr(ks), variant))
+                    for dt in ASTYPES:
+                        if _astype_ok(kind, dt):
+                            rp = dict(fn='sastype', kind=kind, n=n, ax=axk, dt=dt)
+                            _record(rep, eval_series_astype(s, snap, sm, dt), rp, ('sa', kind, n, axk, dt))
+                    _final(rep, snap, case)
+            _final(rep, snap, case)
+        except Exception:
+            rep.error(f'run_other case {case}')
+    return rep.done()
+
+
+def eval_series_astype(s, orig, sm, dt):
+    import static_frame as sf
+    tdt = str if dt == 'str' else np.dtype(dt)
+    r, exc, mutated = run_op(lambda: s.astype(tdt), s, orig)
+    area = f'{PID}:Series.astype'
+    if mutated:
+        return outcome(False, f'{area}:original-mutated', 'snapshot of the original changed by astype')
+    if exc is not None:
+        return outcome(False, f'{area}:raises-{type(exc).__name__}:to={dt}', f'astype raised {type(exc).__name__}: {exc!s:.140}')
+    if not isinstance(r, sf.Series) or r is s:
+        return outcome(False, f'{area}:not-a-new-Series', f'astype returned {type(r).__name__}')
+    a = col_array(sm.kind, 0, sm.n).astype(tdt)
+    o = obs_series(r)
+    sym = None
+    if o['rows'] != sm.ax.norm:
+        sym = 'labels-changed'
+    elif o['dtype'] != str(a.dtype) or not all(cell_eq(x, y) for x, y in zip(o['data'], arr_cells(a))):
+        sym = 'wrong-values-or-dtype'
+    elif o['name'] != sm.name:
+        sym = 'name-changed'
+    if sym is not None:
+        return outcome(False, f'{area}:{sym}:to={dt}', f'Series.astype({dt}) differs from the model ({sym}): {str(o)[:200]}')
+    return outcome(True)
+
+
+# ---------------------------------------------------------------------------------------------
+
+RUNS = ('run_assign', 'run_assign_labelled', 'run_drop_mask', 'run_other')
+
+
+def run(repo, task):
+    """all sub-areas in sequence (convenience; the sub-areas are meant to be registered separately)"""
+    outs = [globals()[name](repo, task) for name in RUNS]
+    out = dict(outs[0])
+    out['name'] = 'C08-update'
+    for o in outs[1:]:
+        out['evaluations'] += o['evaluations']
+        out['distinct'] += o['distinct']
+        out['failures'] = out['failures'] + o['failures']
+        out['rule'] += ' || ' + o['rule']
+        out['bound'] += ' || ' + o['bound']
+        out['wall_s'] += o['wall_s']
+        if o['status'] != 'ok':
+            out['status'] = o['status']
+            out['detail'] = out.get('detail', '') + o.get('detail', '')
+    return out
+
+
+def replay(repo, rp):
+    """re-run exactly one recorded case"""
+    fn = rp.get('fn')
+    if fn in ('assign', 'update'):
+        if rp['c'] == 'series':
+            sm = SeriesModel(rp['kind'], rp['n'], rp.get('ax', 'str'))
+            s = sm.build()
+            res = eval_series_update(s, Orig(s), sm, rp['iface'], rp['route'], rp['k'], rp.get('v'))
+        else:
+            fm = FrameModel(rp['kinds'], rp['rows'], rp['layout'], rp.get('rax', 'str'), rp.get('cax', 'str'))
+            f = fm.build()
+            res, _ = eval_frame_update(f, Orig(f), fm, rp['iface'], rp['route'], rp['rk'], rp['ck'], rp.get('v'), blame=False)
+    elif fn == 'bloc':
+        fm = FrameModel(rp['kinds'], rp['rows'], rp['layout'], rp['rax'], rp['cax'])
+        f = fm.build()
+        res = eval_frame_bloc(f, Orig(f), fm, rp['k'], rp['v'])
+    elif fn == 'astype':
+        fm = FrameModel(rp['kinds'], rp['rows'], rp['layout'], 'str', rp['cax'])
+        f = fm.build()
+        res = eval_astype(f, Orig(f), fm, rp['form'], rp['ck'], rp['dt'])
+    elif fn == 'insert':
+        fm = FrameModel(rp['kinds'], rp['rows'], rp['layout'])
+        f = fm.build()
+        res = eval_insert(f, Orig(f), fm, rp['where'], rp['k'], rp['cont'])
+    elif fn in ('relabel', 'rename'):
+        if rp['c'] == 'series':
+            model = SeriesModel(rp['kind'], rp['n'], rp['ax'])
+        else:
+            model = FrameModel(rp['kinds'], rp['rows'], rp['layout'], rp['rax'], rp['cax'])
+        c = model.build()
+        res = eval_relabel(c, Orig(c), model, rp['hr'], rp['hc']) if fn == 'relabel' else eval_rename(c, Orig(c), model, rp['names'])
+    elif fn == 'sinsert':
+        sm = SeriesModel(rp['kind'], rp['n'], rp['ax'])
+        s = sm.build()
+        res = eval_series_insert(s, Orig(s), sm, rp['where'], rp['k'], rp['variant'])
+    elif fn == 'sastype':
+        sm = SeriesModel(rp['kind'], rp['n'], rp['ax'])
+        s = sm.build()
+        res = eval_series_astype(s, Orig(s), sm, rp['dt'])
+    else:
+        return dict(outcome='pass', note=f'no single-case replay for {fn}: re-run the stand-in')
+    ok, key, what, _, how = res
+    return dict(outcome='pass' if ok else 'fail', key=key, what=what, how=how)
